@@ -2,6 +2,7 @@ package main
 
 import (
 	"fmt"
+	"go/types"
 	"strings"
 
 	"golang.org/x/tools/go/ssa"
@@ -18,9 +19,11 @@ func init() {
 			"the tsa-enabled helper answers true only for a listed store with prefix tsa; without timestamping every certificate passes !now.Before(NotBefore) and !now.After(NotAfter) with now = time.Now(); " +
 			"(d) the timestamp path's success exits are cut, in data-dependence order, by countersignature present, ParseSignedToken, Info, info.Validate(SignerInfo.Signature), tsa stores loaded by the tsa loader and non-empty, " +
 			"signedToken.Verify with Roots built only from those certificates and CurrentTime = the timestamp, ValidateTimestampingCertChain, BoundedAfter(NotBefore) and BoundedBefore(NotAfter) for every certificate of the signing chain, " +
-			"and revocation of the TSA chain (validator error and every aggregate other than OK fail-closed); (e) the authentic-timestamp result for notary.x509 is exactly the timestamp function's error.",
+			"and revocation of the TSA chain (validator error and every aggregate other than OK fail-closed); (e) the authentic-timestamp result for notary.x509 is exactly the timestamp function's error. " +
+			"Shapes: instants compared with Before/After/Compare are one canonical relation; a whole-chain check is an inline loop, a module helper containing the loop, or slices.IndexFunc/ContainsFunc with a predicate; " +
+			"a result's error may be a literal per exit or one variable assigned on the branches; provenance is read in the frame of the single caller of an unexported function (struct-of-options fields, pointer to a read-only local copy).",
 		NotCov:  "RFC 3161 token verification (tspclient-go), equal-instant boundaries of time.Time comparisons, the revocation aggregator itself (C05).",
-		Trusted: []string{"go/types, go/ssa", "tspclient-go", "time.Time Before/After/IsZero", "notation-core-go x509.ValidateTimestampingCertChain"},
+		Trusted: []string{"go/types, go/ssa", "tspclient-go", "time.Time Before/After/Compare/IsZero", "slices.IndexFunc/ContainsFunc, strings.Cut/HasPrefix", "notation-core-go x509.ValidateTimestampingCertChain"},
 	})
 }
 
@@ -46,48 +49,44 @@ func runC06(c *Ctx) {
 		c.Unk("anchors", "anchors: the functions producing the expiry and authentic-timestamp results and the one parsing the countersignature", "-", fmt.Sprintf("expiry=%v authenticTimestamp=%v timestamp=%v", EXP != nil, ATS != nil, T != nil))
 		return
 	}
+	sc := newC06Scanner(w)
 	c06Expiry(c, EXP)
-	c06SigningAuthority(c, ATS, T)
-	c06Regime(c, T)
-	c06TimestampPath(c, T)
+	c06SigningAuthority(c, sc, ATS, T)
+	c06Regime(c, sc, T)
+	c06TimestampPath(c, sc, T)
 	c.MinCount("", 20, "clock obligations")
 }
 
 func c06Expiry(c *Ctx, EXP *ssa.Function) {
 	w := c.W
 	fi := w.Info(EXP)
+	fr := c06FrameOf(w, EXP)
 	c.SeenFn(EXP.String())
 	rule := "must-check (disjunctive): the expiry result is error-free only if SignedAttributes.Expiry is zero or time.Now() is before it"
 	isExp := func(s string) bool { return strings.HasSuffix(s, ".SignedAttributes.Expiry") }
-	n := 0
-	cut := fi.edgesMatching(func(l string, iff *ssa.If, truth bool) bool {
-		cond := stripNot(iff.Cond, &truth)
-		call, ok := cond.(*ssa.Call)
-		if !ok || !truth {
-			return false
-		}
-		switch calleeName(call) {
-		case "(time.Time).IsZero":
-			if isExp(desc(call.Call.Args[0])) {
-				n++
+	// The passing edges are recognised by the fact they carry, in canonical form (c06Canon): "the expiry is the zero time" and
+	// "time.Now() is strictly before the expiry" — whether the latter is spelled now.Before(e), e.After(now) or with Compare.
+	// The error may be returned in a literal per exit or collected in a variable that one literal reports (c06Witness).
+	kinds := map[string]bool{}
+	cut := fi.edgesMatching(func(l string, _ *ssa.If, _ bool) bool {
+		op, args := splitTopArgs(fr.lift(c06Canon(l)))
+		switch {
+		case op == "T" && len(args) == 1 && strings.HasPrefix(args[0], "call:(time.Time).IsZero(") && strings.HasSuffix(args[0], ")"):
+			if isExp(strings.TrimSuffix(strings.TrimPrefix(args[0], "call:(time.Time).IsZero("), ")")) {
+				kinds["zero"] = true
 				return true
 			}
-		case "(time.Time).Before":
-			if desc(call.Call.Args[0]) == "call:time.Now()" && isExp(desc(call.Call.Args[1])) {
-				n++
-				return true
-			}
-		case "(time.Time).After":
-			if isExp(desc(call.Call.Args[0])) && desc(call.Call.Args[1]) == "call:time.Now()" {
-				n++
+		case op == "BEFORE" && len(args) == 2:
+			if args[0] == "call:time.Now()" && isExp(args[1]) {
+				kinds["before"] = true
 				return true
 			}
 		}
 		return false
 	})
-	wit := fi.successWitness(Mode{Kind: mObj, K: 0}, entryState(), cut)
+	wit := c06Witness(fi, Mode{Kind: mObj, K: 0}, entryState(), cut)
 	c.Evals++
-	c.Check(n >= 2 && wit == nil, "expiry/clock", rule, w.FnPos(EXP), "an error-free expiry result is possible for a non-zero expiry that is not after time.Now() (or the comparison uses another clock/operand)", wit...)
+	c.Check(len(kinds) == 2 && wit == nil, "expiry/clock", rule, w.FnPos(EXP), "an error-free expiry result is possible for a non-zero expiry that is not after time.Now() (or the comparison uses another clock/operand)", wit...)
 }
 
 func stripNot(v ssa.Value, truth *bool) ssa.Value {
@@ -101,28 +100,26 @@ func stripNot(v ssa.Value, truth *bool) ssa.Value {
 	}
 }
 
-// timeGate recognises an If edge on which `t` is known to be inside a bound:
-// kind "notbefore": !t.Before(x.NotBefore) ; kind "notafter": !t.After(x.NotAfter).
-func timeGate(l string, tDesc, chainD, kind string) bool {
-	switch kind {
-	case "notbefore":
-		return strings.HasPrefix(l, "F(call:(time.Time).Before("+tDesc+","+chainD+"[") && strings.HasSuffix(l, "].NotBefore))")
-	default:
-		return strings.HasPrefix(l, "F(call:(time.Time).After("+tDesc+","+chainD+"[") && strings.HasSuffix(l, "].NotAfter))")
-	}
+// c06WindowFacts: the scan proves, for every element, that the instant tD is inside the element's validity window:
+// tD is not before NotBefore, and NotAfter is not before tD (canonical forms of !tD.Before(NotBefore), !tD.After(NotAfter)).
+func c06WindowFacts(s *c06Scan, tD string) (bool, bool) {
+	return s.Facts["NOTBEFORE("+tD+","+s.Chain+"[*].NotBefore)"], s.Facts["NOTBEFORE("+s.Chain+"[*].NotAfter,"+tD+")"]
 }
 
-func c06SigningAuthority(c *Ctx, ATS, T *ssa.Function) {
+func c06SigningAuthority(c *Ctx, sc *c06Scanner, ATS, T *ssa.Function) {
 	w := c.W
 	fi := w.Info(ATS)
+	fr := c06FrameOf(w, ATS)
 	c.SeenFn(ATS.String())
 	sx, _ := w.depConstString("github.com/notaryproject/notation-core-go/signature", "SigningSchemeX509")
-	s := w.Summarize(ATS, Mode{Kind: mObj, K: 0})
-	c.Evals += s.States
+	// exits: one per returned literal, or — when one literal reports an error variable — one per assignment that reaches it
+	exits, states := c06ObjExits(w, ATS, 0)
+	exits = fr.liftExits(exits)
+	c.Evals += states
 	// (e) notary.x509: tail = T
 	okTail, okOther := false, false
 	schemeEQ := fmt.Sprintf(".SignedAttributes.SigningScheme,const:%q)", sx)
-	for _, ex := range s.Exits {
+	for _, ex := range exits {
 		if _, h := hasLabel(ex.Checked, "EQ(", schemeEQ); h {
 			if ex.Tail == fnName(T) {
 				okTail = true
@@ -137,42 +134,35 @@ func c06SigningAuthority(c *Ctx, ATS, T *ssa.Function) {
 		}
 	}
 	c.Check(okTail, "dispatch/x509-result-is-timestamp-error", "under notary.x509 the authentic-timestamp result's Error is exactly the timestamp function's error", w.FnPos(ATS), "no such exit")
-	// (b) signing authority loop
-	chainD := ""
-	var loop *sliceLoop
-	for _, sl := range sliceLoops(ATS) {
-		sl := sl
-		if strings.HasSuffix(desc(sl.X), ".SignerInfo.CertificateChain") {
-			loop = &sl
-			chainD = desc(sl.X)
+	// (b) signing authority: a whole-chain scan (c06Scan) of SignerInfo.CertificateChain whose per-element facts are the two
+	// bounds against that SignerInfo's SigningTime, and behind which every error-free result of the non-x509 side lies
+	rule := "signing-authority: every certificate of the whole chain satisfies !SigningTime.Before(NotBefore) and !SigningTime.After(NotAfter); an error-free result is reachable only after the loop"
+	cut := fi.edgesMatching(func(l string, _ *ssa.If, _ bool) bool {
+		l = fr.lift(l)
+		return strings.HasPrefix(l, "EQ(") && strings.HasSuffix(l, schemeEQ)
+	})
+	var cand *c06Scan
+	var candWit []string
+	h1, h2 := false, false
+	for _, s := range sc.lifted(ATS, fr) {
+		if !strings.HasSuffix(s.Chain, ".SignerInfo.CertificateChain") {
+			continue
+		}
+		tD := strings.TrimSuffix(s.Chain, ".CertificateChain") + ".SignedAttributes.SigningTime"
+		g1, g2 := c06WindowFacts(s, tD)
+		wit := sc.covers(fi, Mode{Kind: mObj, K: 0}, entryState(), cut, s)
+		c.Evals += 2
+		if cand == nil || (g1 && g2 && wit == nil) {
+			cand, candWit, h1, h2 = s, wit, g1, g2
 		}
 	}
-	rule := "signing-authority: every certificate of the whole chain satisfies !SigningTime.Before(NotBefore) and !SigningTime.After(NotAfter); an error-free result is reachable only after the loop"
-	if loop == nil || !okOther {
+	if cand == nil || !okOther {
 		c.Bad("signing-authority/window", rule, w.FnPos(ATS), "no loop over SignerInfo.CertificateChain on the signing-authority branch")
 		return
 	}
-	tD := strings.TrimSuffix(chainD, ".CertificateChain") + ".SignedAttributes.SigningTime"
-	labels, ok := fi.mustPassBetween([]int{loop.Body.Index}, map[int]bool{loop.Header.Index: true})
-	h1, h2 := false, false
-	for l := range labels {
-		if timeGate(l, tD, chainD, "notbefore") {
-			h1 = true
-		}
-		if timeGate(l, tD, chainD, "notafter") {
-			h2 = true
-		}
-	}
-	// success on the non-x509 side only through the loop
-	cut := fi.edgesMatching(func(l string, _ *ssa.If, _ bool) bool {
-		return strings.HasPrefix(l, "EQ(") && strings.HasSuffix(l, schemeEQ)
-	})
-	cutInto(fi, loop.Header, cut)
-	wit := fi.successWitness(Mode{Kind: mObj, K: 0}, entryState(), cut)
-	wit2 := fi.successWitness(Mode{Kind: mObj, K: 0}, []state{{loop.Body.Index, 0, -1}}, backEdges(loop.Header))
-	c.Evals += 3
-	c.Check(ok && h1 && h2 && wit == nil && wit2 == nil, "signing-authority/window", rule, w.InstrPos(blockTerm(loop.Header)),
-		fmt.Sprintf("not-before gate=%v not-after gate=%v (time operand must be %s); bypass of the loop=%v; success from inside the loop=%v", h1, h2, tD, wit != nil, wit2 != nil))
+	tD := strings.TrimSuffix(cand.Chain, ".CertificateChain") + ".SignedAttributes.SigningTime"
+	c.Check(h1 && h2 && candWit == nil, "signing-authority/window", rule, cand.Site,
+		fmt.Sprintf("not-before gate=%v not-after gate=%v (time operand must be %s); an error-free result that does not lie behind the complete scan=%v", h1, h2, tD, candWit != nil), candWit...)
 }
 
 // backEdges returns the back edges of a loop header as a cut set.
@@ -207,9 +197,12 @@ func tsStopBlock(T *ssa.Function) *ssa.BasicBlock {
 	return nil
 }
 
-func c06Regime(c *Ctx, T *ssa.Function) {
+func c06Regime(c *Ctx, sc *c06Scanner, T *ssa.Function) {
 	w := c.W
 	fi := w.Info(T)
+	// the provenance of what T is handed (the policy's stores and option, the envelope's signer info) is read in the frame
+	// of the function that owns it (c06FrameOf)
+	fr := c06FrameOf(w, T)
 	c.SeenFn(T.String())
 	ts := tsStopBlock(T)
 	if ts == nil {
@@ -228,7 +221,7 @@ func c06Regime(c *Ctx, T *ssa.Function) {
 		if g == nil || !w.IsProductFn(g) || g.Signature.Results().Len() != 2 {
 			continue
 		}
-		if g.Signature.Results().At(0).Type().String() == "bool" && isErrorType(g.Signature.Results().At(1).Type()) && mentionsConst(w, g, "tsa") {
+		if g.Signature.Results().At(0).Type().String() == "bool" && isErrorType(g.Signature.Results().At(1).Type()) && (mentionsConst(w, g, "tsa") || mentionsConst(w, g, "tsa:")) {
 			G, gCall = g, call
 		}
 	}
@@ -249,7 +242,17 @@ func c06Regime(c *Ctx, T *ssa.Function) {
 			if k, isK := r.Results[0].(*ssa.Const); isK && constString(k) == "true" {
 				n++
 				gl, _ := gfi.mustPassBetween([]int{0}, map[int]bool{b.Index: true})
-				if _, h := hasLabel(gl, "EQ(call:strings.Cut(param:", `,const:":")#0,const:"tsa")`); !h {
+				// the type of a store value is what precedes its first ":". It equals "tsa" when Cut(value, ":") yields "tsa", and
+				// equally when the value starts with "tsa:" ("tsa" contains no ":", so that colon is the first one).
+				_, h := hasLabel(gl, "EQ(call:strings.Cut(param:", `,const:":")#0,const:"tsa")`)
+				if !h {
+					for l := range gl {
+						if strings.HasPrefix(l, "T(call:strings.HasPrefix(param:") && strings.HasSuffix(l, `],const:"tsa:"))`) {
+							h = true
+						}
+					}
+				}
+				if !h {
 					ok = false
 				}
 			} else if !isK {
@@ -259,7 +262,7 @@ func c06Regime(c *Ctx, T *ssa.Function) {
 		// stores argument provenance
 		storesOK := false
 		for _, a := range gCall.Call.Args {
-			if desc(a) == w.paramFedBy(gCall.Parent(), ".TrustStores") || strings.HasSuffix(desc(a), ".TrustStores") {
+			if d := fr.lift(desc(a)); d == w.paramFedBy(fr.Fn, ".TrustStores") || strings.HasSuffix(d, ".TrustStores") {
 				storesOK = true
 			}
 		}
@@ -268,9 +271,28 @@ func c06Regime(c *Ctx, T *ssa.Function) {
 	}
 	oa, _ := w.constString("verifier/trustpolicy", "OptionAfterCertExpiry")
 	oal, _ := w.constString("verifier/trustpolicy", "OptionAlways")
-	var tsaIn bool
+	// the "chain expired" decision taken by a call instead of an inline loop: a boolean call q that is a whole-chain scan
+	// (helper containing the loop, or slices.ContainsFunc) with: q == Want  =>  for every certificate NotAfter is not before
+	// time.Now() (none expired), and q != Want  =>  for some certificate NotAfter is before time.Now() (one expired).
+	// Then q's answer is the abstract input "expired" of the decision table, exactly what the inline loop computes.
+	var expScan *c06Scan
+	for _, s := range sc.lifted(T, fr) {
+		if s.Call == nil || s.Exists == nil || !strings.HasSuffix(s.Chain, ".SignerInfo.CertificateChain") {
+			continue
+		}
+		if bt, isB := s.Call.Type().Underlying().(*types.Basic); !isB || bt.Kind() != types.Bool {
+			continue
+		}
+		if s.Facts["NOTBEFORE("+s.Chain+"[*].NotAfter,call:time.Now())"] && s.Exists["BEFORE("+s.Chain+"[*].NotAfter,call:time.Now())"] {
+			expScan = s
+		}
+	}
+	var tsaIn, expiredIn bool
 	var optIn string
 	hook := func(in ssa.Instruction, env map[ssa.Value]AVal) (AVal, bool) {
+		if expScan != nil && in == ssa.Instruction(expScan.Call) {
+			return AVal{Kind: aBool, B: expiredIn != expScan.Want}, true
+		}
 		if ex, ok := in.(*ssa.Extract); ok && ex.Tuple == gCall {
 			if ex.Index == 0 {
 				return AVal{Kind: aBool, B: tsaIn}, true
@@ -280,7 +302,7 @@ func c06Regime(c *Ctx, T *ssa.Function) {
 		if v, ok := in.(ssa.Value); ok {
 			switch in.(type) {
 			case *ssa.UnOp, *ssa.Field:
-				if strings.HasSuffix(desc(v), ".VerifyTimestamp") {
+				if strings.HasSuffix(fr.lift(desc(v)), ".VerifyTimestamp") {
 					return AVal{Kind: aStr, Str: optIn}, true
 				}
 			}
@@ -293,59 +315,73 @@ func c06Regime(c *Ctx, T *ssa.Function) {
 		if !ok || from.Succs[0] != to {
 			return false
 		}
-		l := condLabel(iff.Cond, true)
-		return strings.HasPrefix(l, "T(call:(time.Time).After(call:time.Now(),") && strings.HasSuffix(l, "].NotAfter))")
+		op, args := splitTopArgs(fr.lift(c06Canon(condLabel(iff.Cond, true))))
+		return op == "BEFORE" && len(args) == 2 && strings.HasSuffix(args[0], "].NotAfter") && args[1] == "call:time.Now()"
+	}
+	expiredInputs := []bool{false}
+	if expScan != nil {
+		expiredInputs = []bool{false, true}
 	}
 	var bad []string
 	nPaths := 0
 	table := map[string]string{}
 	for _, tsa := range []bool{false, true} {
 		for _, opt := range []string{"", oal, oa, "bogus"} {
-			tsaIn, optIn = tsa, opt
-			outs := ip.Run(T.Blocks[0], nil, map[ssa.Value]AVal{}, map[*ssa.BasicBlock]bool{ts: true}, nil)
-			for _, o := range outs {
-				nPaths++
-				// reconstruct whether the path saw an expired certificate before the decision
-				sawExpired := false
-				trace := o.Trace
-				if o.Stop != nil {
-					trace = append(append([]int(nil), trace...), o.Stop.Index)
-				}
-				for i := 0; i+1 < len(trace); i++ {
-					if isExpiredEdge(T.Blocks[trace[i]], T.Blocks[trace[i+1]]) {
-						sawExpired = true
+			for _, expIn := range expiredInputs {
+				tsaIn, optIn, expiredIn = tsa, opt, expIn
+				outs := ip.Run(T.Blocks[0], nil, map[ssa.Value]AVal{}, map[*ssa.BasicBlock]bool{ts: true}, nil)
+				for _, o := range outs {
+					nPaths++
+					// reconstruct whether the path saw an expired certificate before the decision
+					sawExpired := false
+					trace := o.Trace
+					if o.Stop != nil {
+						trace = append(append([]int(nil), trace...), o.Stop.Index)
 					}
-				}
-				regime := "now"
-				if o.Stop == ts {
-					regime = "timestamp"
-				}
-				want := "now"
-				if tsa && (opt != oa || sawExpired) {
-					want = "timestamp"
-				}
-				// in the 'now' regime a path that saw an expired certificate during the valid-now scan is irrelevant to the decision;
-				// only consider the expiry observed before the decision point: the decision scan happens only when tsa && opt == afterCertExpiry
-				if !(tsa && opt == oa) {
-					want = "now"
-					if tsa {
+					for i := 0; i+1 < len(trace); i++ {
+						if isExpiredEdge(T.Blocks[trace[i]], T.Blocks[trace[i+1]]) {
+							sawExpired = true
+						}
+					}
+					// ... or was told so by the scan call it evaluated
+					if expScan != nil && expiredIn {
+						for _, bi := range o.Trace {
+							if bi == expScan.Call.Block().Index {
+								sawExpired = true
+							}
+						}
+					}
+					regime := "now"
+					if o.Stop == ts {
+						regime = "timestamp"
+					}
+					want := "now"
+					if tsa && (opt != oa || sawExpired) {
 						want = "timestamp"
 					}
-				} else if regime == "now" && sawExpired {
-					// the path concluded 'not expired' in the decision scan and later met an expired certificate in the valid-now scan
-					// (both use time.Now()); the valid-now scan rejects it. Not a decision error.
-					if o.Ret != nil && len(o.Ret.Results) == 1 && !isNilConst(o.Ret.Results[0]) {
-						continue
+					// in the 'now' regime a path that saw an expired certificate during the valid-now scan is irrelevant to the decision;
+					// only consider the expiry observed before the decision point: the decision scan happens only when tsa && opt == afterCertExpiry
+					if !(tsa && opt == oa) {
+						want = "now"
+						if tsa {
+							want = "timestamp"
+						}
+					} else if regime == "now" && sawExpired {
+						// the path concluded 'not expired' in the decision scan and later met an expired certificate in the valid-now scan
+						// (both use time.Now()); the valid-now scan rejects it. Not a decision error.
+						if o.Ret != nil && len(o.Ret.Results) == 1 && !isNilConst(o.Ret.Results[0]) {
+							continue
+						}
 					}
-				}
-				key := fmt.Sprintf("tsa=%v option=%q expired-seen=%v", tsa, opt, sawExpired)
-				if prev, ok := table[key]; ok && prev != regime {
-					table[key] = "both"
-				} else if !ok {
-					table[key] = regime
-				}
-				if regime != want {
-					bad = append(bad, key+": regime "+regime+", specified "+want)
+					key := fmt.Sprintf("tsa=%v option=%q expired-seen=%v", tsa, opt, sawExpired)
+					if prev, ok := table[key]; ok && prev != regime {
+						table[key] = "both"
+					} else if !ok {
+						table[key] = regime
+					}
+					if regime != want {
+						bad = append(bad, key+": regime "+regime+", specified "+want)
+					}
 				}
 			}
 		}
@@ -367,55 +403,44 @@ func c06Regime(c *Ctx, T *ssa.Function) {
 	}
 	// the decision scan covers the whole chain with time.Now(): the expired-edge exists and its loop ranges over CertificateChain
 	// valid-now regime: success exits that avoid the timestamp regime traverse a loop with both gates
-	var nowLoop *sliceLoop
-	chainD := ""
-	for _, sl := range sliceLoops(T) {
-		sl := sl
-		d := desc(sl.X)
-		if !strings.HasSuffix(d, ".SignerInfo.CertificateChain") {
+	// a whole-chain scan (inline loop, helper, or library search: c06Scan) of SignerInfo.CertificateChain whose per-element
+	// facts are both bounds against time.Now(), behind which every success exit that avoids the timestamp regime lies
+	rule2 := "without timestamping every certificate of the whole chain satisfies !now.Before(NotBefore) and !now.After(NotAfter) with now = time.Now(); success only after the loop"
+	base := map[edgeKey]bool{}
+	cutInto(fi, ts, base)
+	var nowScan *c06Scan
+	var nowWit []string
+	for _, s := range sc.lifted(T, fr) {
+		if !strings.HasSuffix(s.Chain, ".SignerInfo.CertificateChain") {
 			continue
 		}
-		labels, ok := fi.mustPassBetween([]int{sl.Body.Index}, map[int]bool{sl.Header.Index: true})
-		if !ok {
+		if h1, h2 := c06WindowFacts(s, "call:time.Now()"); !h1 || !h2 {
 			continue
 		}
-		h1, h2 := false, false
-		for l := range labels {
-			if timeGate(l, "call:time.Now()", d, "notbefore") {
-				h1 = true
-			}
-			if timeGate(l, "call:time.Now()", d, "notafter") {
-				h2 = true
-			}
-		}
-		if h1 && h2 {
-			nowLoop = &sl
-			chainD = d
+		wit := sc.covers(fi, Mode{Kind: mErr}, entryState(), base, s)
+		c.Evals += 2
+		if nowScan == nil || wit == nil {
+			nowScan, nowWit = s, wit
 		}
 	}
-	rule2 := "without timestamping every certificate of the whole chain satisfies !now.Before(NotBefore) and !now.After(NotAfter) with now = time.Now(); success only after the loop"
-	if nowLoop == nil {
+	if nowScan == nil {
 		c.Bad("regime/valid-now", rule2, w.FnPos(T), "no loop over the chain with both bounds against time.Now()")
 	} else {
-		cut := map[edgeKey]bool{}
-		cutInto(fi, ts, cut)
-		cutInto(fi, nowLoop.Header, cut)
-		wit := fi.successWitness(Mode{Kind: mErr}, entryState(), cut)
-		wit2 := fi.successWitness(Mode{Kind: mErr}, []state{{nowLoop.Body.Index, 0, -1}}, backEdges(nowLoop.Header))
-		c.Evals += 2
-		c.Check(wit == nil && wit2 == nil, "regime/valid-now", rule2, w.InstrPos(blockTerm(nowLoop.Header)), "a success exit bypasses the valid-now scan of "+chainD, append(wit, wit2...)...)
+		c.Check(nowWit == nil, "regime/valid-now", rule2, nowScan.Site, "a success exit bypasses the valid-now scan of "+nowScan.Chain, nowWit...)
 	}
 }
 
-func c06TimestampPath(c *Ctx, T *ssa.Function) {
+func c06TimestampPath(c *Ctx, sc *c06Scanner, T *ssa.Function) {
 	w := c.W
 	fi := w.Info(T)
+	fr := c06FrameOf(w, T)
 	ts := tsStopBlock(T)
 	if ts == nil {
 		return
 	}
 	s := fi.summarizeFrom(Mode{Kind: mErr}, []state{{ts.Index, 0, -1}}, nil)
 	c.Evals += s.States
+	s.Exits = fr.liftExits(s.Exits)
 	tok := "call:tspclient.ParseSignedToken("
 	c.requireOnExits("timestamp", T, s.Exits, []Need{
 		{Name: "countersignature-present", What: "len(UnsignedAttributes.TimestampSignature) != 0", Alt: [][]string{{"NE(len(", ".UnsignedAttributes.TimestampSignature),const:0)"}, {"GT(len(", ".UnsignedAttributes.TimestampSignature),const:0)"}}},
@@ -443,10 +468,11 @@ func c06TimestampPath(c *Ctx, T *ssa.Function) {
 		c.Bad("timestamp/tsa-stores", "the TSA roots are loaded by the tsa-typed loader", w.FnPos(T), "no call of a loader that selects tsa stores")
 		return
 	}
-	ld := desc(loadCall)
+	ld := fr.lift(desc(loadCall))
+	ld0 := fr.lift(res(loadCall, 0))
 	c.requireOnExits("timestamp", T, s.Exits, []Need{
 		{Name: "tsa-stores-loaded", What: "tsa loader err == nil", Subs: []string{"EQ(" + ld + "#err,nil)"}},
-		{Name: "tsa-stores-non-empty", What: "len(tsa certificates) != 0", Alt: [][]string{{"NE(len(" + res(loadCall, 0) + "),const:0)"}, {"GT(len(" + res(loadCall, 0) + "),const:0)"}}},
+		{Name: "tsa-stores-non-empty", What: "len(tsa certificates) != 0", Alt: [][]string{{"NE(len(" + ld0 + "),const:0)"}, {"GT(len(" + ld0 + "),const:0)"}}},
 	})
 	// Verify options: Roots <- pool filled only with loader certificates; CurrentTime <- timestamp.Value
 	var verify *ssa.Call
@@ -506,34 +532,30 @@ func c06TimestampPath(c *Ctx, T *ssa.Function) {
 	} else {
 		c.Bad("timestamp/roots-from-tsa-stores", "provenance: the roots of the countersignature verification are exactly the certificates of the policy's tsa stores", w.FnPos(T), "signedToken.Verify not called")
 	}
-	// window loop over the signing chain
-	var win *sliceLoop
-	for _, sl := range sliceLoops(T) {
-		sl := sl
-		d := desc(sl.X)
-		if !strings.HasSuffix(d, ".SignerInfo.CertificateChain") {
+	// window: a whole-chain scan (c06Scan) of the signing chain whose per-element facts are both bounded comparisons of the
+	// validated timestamp, behind which every success exit of the timestamp regime lies
+	var win *c06Scan
+	var winWit []string
+	for _, sn := range sc.lifted(T, fr) {
+		if !strings.HasSuffix(sn.Chain, ".SignerInfo.CertificateChain") {
 			continue
 		}
-		labels, ok := fi.mustPassBetween([]int{sl.Body.Index}, map[int]bool{sl.Header.Index: true})
-		if !ok {
+		h1 := c06HasFact(sn.Facts, "T(call:(*tspclient.Timestamp).BoundedAfter(call:(*tspclient.TSTInfo).Validate(", ","+sn.Chain+"[*].NotBefore))")
+		h2 := c06HasFact(sn.Facts, "T(call:(*tspclient.Timestamp).BoundedBefore(call:(*tspclient.TSTInfo).Validate(", ","+sn.Chain+"[*].NotAfter))")
+		if !h1 || !h2 {
 			continue
 		}
-		_, h1 := hasLabel(labels, "T(call:(*tspclient.Timestamp).BoundedAfter(call:(*tspclient.TSTInfo).Validate(", ","+d+"[", "].NotBefore))")
-		_, h2 := hasLabel(labels, "T(call:(*tspclient.Timestamp).BoundedBefore(call:(*tspclient.TSTInfo).Validate(", ","+d+"[", "].NotAfter))")
-		if h1 && h2 {
-			win = &sl
+		wit := sc.covers(fi, Mode{Kind: mErr}, []state{{ts.Index, 0, -1}}, nil, sn)
+		c.Evals += 2
+		if win == nil || wit == nil {
+			win, winWit = sn, wit
 		}
 	}
 	rule := "the timestamp's range lies inside the validity window of every certificate of the signing chain (BoundedAfter(NotBefore) and BoundedBefore(NotAfter)); success only after the loop"
 	if win == nil {
 		c.Bad("timestamp/window", rule, w.FnPos(T), "no loop over the signing chain with both bounded comparisons of the validated timestamp")
 	} else {
-		cut := map[edgeKey]bool{}
-		cutInto(fi, win.Header, cut)
-		wit := fi.successWitness(Mode{Kind: mErr}, []state{{ts.Index, 0, -1}}, cut)
-		wit2 := fi.successWitness(Mode{Kind: mErr}, []state{{win.Body.Index, 0, -1}}, backEdges(win.Header))
-		c.Evals += 2
-		c.Check(wit == nil && wit2 == nil, "timestamp/window", rule, w.InstrPos(blockTerm(win.Header)), "the window check can be bypassed", append(wit, wit2...)...)
+		c.Check(winWit == nil, "timestamp/window", rule, win.Site, "the window check can be bypassed", winWit...)
 	}
 	// revocation of the TSA chain: the validator receives the chain returned by Verify
 	for _, ci := range allCalls(T) {
